@@ -305,6 +305,8 @@ void HttpMessage::readBody()
 		int maxToRead = _socket->available(), bytesRead = 0;
 		if (!chunked && maxToRead <= 0) // readable but empty: the peer has closed; the read below notices it
 			maxToRead = 1;
+		if (!chunked && size > 0 && maxToRead > size) // what follows the announced length is the next request
+			maxToRead = size;
 		if (chunked)
 		{
 			String chunkSize = _socket->readLine();
